@@ -285,18 +285,13 @@ def scheme_sort_key(scheme: Type[MafScheme]) -> T:
         1. "gdc-[0-9]+\.[0-9]+\.[0-9]"
         2. "gdc-[0-9]+\.[0-9]+\.[0-9]-[a-z]+"
         """
-        if not vstr.startswith("gdc-"):
+        # any other name (also one that merely starts with "gdc-") sorts as
+        # a plain name, so that every key has the same shape
+        match = re.fullmatch(r"gdc-([0-9]+)\.([0-9]+)\.([0-9]+)(?:-(.*))?", vstr)
+        if not match:
             return [-1, -1, -1, vstr]
-        gdc_len = len("gdc-")
-        vstr = vstr[gdc_len:]
-        last = ""
-        if "-" in vstr:
-            index = vstr.index("-")
-            l_index = index + 1
-            last = vstr[l_index:]
-            vstr = vstr[:index]
-        semver: List[Union[int, str]] = [int(s) for s in vstr.split(".")]
-        semver.append(last)
+        semver: List[Union[int, str]] = [int(s) for s in match.groups()[:3]]
+        semver.append(match.group(4) or "")
         return semver
 
     version = extract_version_string(scheme.version())
